@@ -296,6 +296,15 @@ class Interp:
         it = self.ev(s.iter, env, mod)
         if self.loop_hook is not None and self.loop_hook(s, it, env, mod):
             return
+        from . import seq
+        fit = force(it)
+        if isinstance(fit, Inst) and fit.cls.has('__iter__'):
+            inner = force(self.call(self.getattr(fit, '__iter__'), [], {}))
+            if isinstance(inner, (AList, seq.ASet, seq.ADict)):
+                fit = inner
+        if isinstance(fit, (AList, seq.ASet, seq.ADict)):
+            seq.for_loop(self, s, fit, env, mod)
+            return
         for x in self.iterate(it):
             self.assign(s.target, x, env, mod)
             try:
@@ -646,6 +655,11 @@ class Interp:
             return ops.s_or(a, b) if op == '|' else ops.s_and(a, b)
         if op == '|' and isinstance(a, ISet) and isinstance(b, ISet):
             return ISet(a.elems + b.elems)
+        if op == '|':
+            from . import seq
+            if isinstance(a, seq.ASet) or isinstance(b, seq.ASet):
+                if isinstance(a, (seq.ASet, ISet)) and isinstance(b, (seq.ASet, ISet)):
+                    return seq.ASet(seq.concat(seq.as_al(a), seq.as_al(b)))
         if op == '-' and isinstance(a, ISet) and isinstance(b, ISet):
             return ISet([x for x in a.elems if not b.has(x)])
         if inplace and isinstance(a, Inst):
